@@ -444,7 +444,11 @@ func (a *arrayObject) _defineIdxProperty(idx uint32, desc PropertyDescriptor, th
 				a.propValueCount++
 			}
 		} else {
-			a.val.self.(*sparseArrayObject).add(idx, prop)
+			sa := a.val.self.(*sparseArrayObject)
+			sa.add(idx, prop)
+			if _, ok := prop.(*valueProperty); ok {
+				sa.propValueCount++
+			}
 		}
 	}
 	return ok
